@@ -121,6 +121,7 @@ def _logical_lines(text: str) -> T.List[str]:
             i += 2
             while i < n and text[i] == ' ':
                 i += 1
+            cur.append('\x00')   # keeps `$name` from swallowing the next line's first word; dropped by _expand
         elif c == '\n':
             out.append(''.join(cur))
             cur = []
@@ -171,6 +172,8 @@ def _expand(s: str, env: T.Mapping[str, str], path_mode: bool = False) -> T.Unio
                 cur.append(env.get(m.group(0), ''))
                 started = True
                 i = m.end()
+        elif c == '\x00':
+            i += 1
         elif path_mode and c == ' ':
             flush()
             i += 1
@@ -235,6 +238,7 @@ def py_parse(text: str) -> dict:
             raise ManifestError('Parse', 'UnexpectedToken')
         word, rest = m.group(1), m.group(3)
         if word in ('rule', 'pool'):
+            rest = rest.replace('\x00', '')
             m2 = re.match(r'^(' + _IDENT + r') *$', rest)
             if not m2:
                 raise ManifestError('Parse', 'ExpectedNewline')
@@ -753,6 +757,9 @@ def run_projects(ctx: Ctx, oracle_only: bool = False, jobs_fn=make_jobs) -> T.Li
                 ctx.seen_nontrivial((label, job.get('seed')))
             elif group == 'corpus':
                 ctx.tag('corpus-not-configurable')
+            elif group in ('gen', 'pipe') and '--layout=flat' in job['args'] and 'Multiple producers' in r['error']:
+                # the same name in two directories / in a subproject: collides under layout=flat, rejected at configure time
+                ctx.tag('flat-collision-rejected')
             elif label == 'fixed-objname-clash' and 'Multiple producers' in r['error']:
                 ctx.tag('objname-clash-rejected')
             else:
@@ -923,6 +930,10 @@ LONG_ARG = 'x' * 17000
 
 def rand_ops(rng) -> T.List[tuple]:
     ops = []
+    if rng.random() < 0.7:
+        # the usual discipline: rules first
+        for r in rng.sample(['R1', 'R2', 'CC'], rng.randint(1, 3)):
+            ops.append(('R', r, rng.random() < 0.5))
     for _ in range(rng.randint(0, 8)):
         if rng.random() < 0.35:
             ops.append(('R', rng.choice(E_RULES[:3] + E_RULES[4:]) if rng.random() < 0.9 else 'phony', rng.random() < 0.5))
@@ -960,7 +971,7 @@ def real_emit(ops) -> T.Tuple[str, str, T.Optional[str]]:
     for op in ops:
         if op[0] == 'R':
             try:
-                nb.add_rule(NB.NinjaRule(op[1], ['tool', '$ARGS', '$in'], [], 'desc $out', rspable=op[2]))
+                nb.add_rule(NB.NinjaRule(op[1], ['tool', '$ARGS'], ['$in'], 'desc $out', rspable=op[2]))
                 steps += '1'
             except MesonException:
                 steps += '0'
